@@ -133,9 +133,13 @@ impl Ruleset {
                     rule.enabled = prev_rule.enabled;
                 }
 
-                // `m.rule.master` should always be the rule with the highest priority, so we insert
-                // this one at most at the second place.
-                let default_position = 1;
+                // `.m.rule.master` should always be the rule with the highest priority, so if it is
+                // there we insert this one at the second place.
+                let has_master_rule = self
+                    .override_
+                    .first()
+                    .is_some_and(|rule| rule.rule_id == PredefinedOverrideRuleId::Master.as_str());
+                let default_position = if has_master_rule { 1 } else { 0 };
 
                 insert_and_move_rule(&mut self.override_, rule, default_position, after, before)
             }
